@@ -218,6 +218,13 @@ def run(ctx: Ctx, tier: str) -> Result:
                                  "shutdown step may fail (%s) and %s" % (tok, bad), path=g.fmt_chain(ch)))
             else:
                 res.ok("C14.D", {"step": norm(si)[:80], "token": tok, "contained": True})
+    # the handlers are the last line of defence: nothing in them may fail in turn
+    for s_, e_ in g.unguarded_sites(shutdown):
+        hs = [a for a in p.ancestors(s_.node, stop=shutdown.node) if isinstance(a, ast.ExceptHandler)]
+        if hs:
+            res.fail(Finding("C14.D", shutdown.qname, s_.node, shutdown.loc(s_.node),
+                             "the handler at line %d can fail itself (`%s` may raise %s): the failure it was meant to contain leaves shutdown, the remaining "
+                             "steps are skipped" % (hs[0].lineno, norm(s_.node)[:50], "/".join(sorted(e_))), path=g.fmt_chain(sorted(e_.items())[0][1])))
     flag_clear = [n for n in steps if isinstance(n, ast.Assign)]
     if flag_clear and all(isinstance(n.value, ast.Constant) and n.value.value is False for n in flag_clear):
         res.ok("C14.D", {"started cleared": shutdown.loc(flag_clear[-1])})
